@@ -18,7 +18,10 @@ def dispatch (line : String) : String :=
       (match args with
        | "cw" :: _ => CfiWalker.handle "cfi" args      -- the real CfiStackWalker (MdModel.CfiWalker)
        | _ => Cfi.handle "cfi" args)
-    | "win" => Win.handle "win" args
+    | "win" =>
+      (match args with
+       | "rw" :: _ => WinWalker.handle "win" args     -- STACK WIN on the real CfiStackWalker (MdModel.WinWalker)
+       | _ => Win.handle "win" args)
     | "sym" => SymParse.handle "sym" args
     | "symb" => Symbolize.handle "symb" args
     | "once" => Once.handle "once" args
